@@ -438,6 +438,7 @@ type scen struct {
 	doneGate   *gate // set before the first Enqueue
 	writeGate  *gate // holds the writer inside the first BatchWrite of the run (after it read the version)
 	multi      bool  // other BatchedWriters are alive in this process, see mine()
+	noEnd      bool  // the writer was not stopped: no end-of-run demands (see extremeBody)
 	// beforeStop, when set, is waited for by every Stop caller (multi-writer family: all writers
 	// have been constructed)
 	beforeStop <-chan struct{}
@@ -1073,6 +1074,9 @@ func (s *scen) analyze() *analysis {
 		add(fpRegress, "%s (BatchWriteDone had been delivered for the newer write); %d such commits in this run", regress[0], len(regress))
 	}
 	for _, w := range writes {
+		if s.noEnd {
+			break
+		}
 		if w.commit < 0 || w.done < 0 {
 			add(fpHalf, "obj%d.BatchWrite at tick %d (batch%d) but at the end of the run commit=%v done=%v (writer goroutine gone or idle for ever)", w.o, w.t, w.b, w.commit >= 0, w.done >= 0)
 		}
@@ -1110,7 +1114,7 @@ func (s *scen) analyze() *analysis {
 	}
 	var objs []int
 	for _, o := range s.objs {
-		if o.scheduled.Load() { // the real flag at the end of the run
+		if o.scheduled.Load() && !s.noEnd { // the real flag at the end of the run
 			objs = append(objs, o.id)
 		}
 	}
@@ -1615,13 +1619,23 @@ func (s *scen) extremeBody(signal func()) ([]string, bool) {
 	}
 	s.m.log(ev{K: 'F', P: mainA.idx})
 	s.bw.Flush()
+	// served: nothing left to do, or the writer has been sitting in its select without an event for
+	// 2 s after the Flush signal (which wakes it at once). No verdict depends on this wait: a writer
+	// that is never stopped has no "end of run", so only the order checks (Done after Commit, one
+	// Done per BatchWrite so far, store never regresses) are applied to it.
 	w := waiter{m: s.m}
+	var idle idleTracker
 	for !s.settled() {
+		wg, wa := s.liveWriter(s.snapshot())
+		if !wa || idle.observe(s.m, wg, true) >= 2*time.Second {
+			break
+		}
 		if !w.pause() {
 			s.c.Inconclusive(cs.name() + ": case guard expired waiting for the Flush of the extreme writer to be served")
 			return nil, false
 		}
 	}
+	s.noEnd = true
 	// the writer stays behind, parked in its select until its (huge) time-out
 	for _, g := range s.liveWriters(s.snapshot()) {
 		markLeaked(g.ID)
@@ -1687,12 +1701,23 @@ func runFlushK(c *vf.Ctx, cs *caseRec) ([]string, bool) {
 	s.m.log(ev{K: 'F', P: mainA.idx})
 	s.bw.Flush()
 	close(g.release)
+	// the drain is over when nothing is left to do (settled), or – on a tree where that never
+	// becomes true – when the writer has ended three empty collection rounds after the feeder
+	// returned (logical steps), has gone, or sits idle for idleBound: Stop and the usual rules follow
 	var idle idleTracker
+	emptyBase := int64(-1)
 	for !closed(feeder.done) || !s.settled() {
 		gs := s.snapshot()
 		wg, wa := s.liveWriter(gs)
 		if !wa || idle.observe(s.m, wg, true) >= cs.idleBound() {
-			break // no writer / writer idle for ever: the rules of finishWait decide after Stop
+			break
+		}
+		if closed(feeder.done) {
+			if n := s.m.emptyLoops.Load(); emptyBase < 0 {
+				emptyBase = n
+			} else if n >= emptyBase+3 {
+				break
+			}
 		}
 		if !w.pause() {
 			return guard("the flush to drain")
